@@ -24,3 +24,33 @@ Lemma delete_unchecked_crashes :
   = [snd (step (synth_cfg_with false true false) oracle_translate (init_state (synth_cfg_with false true false)) (OpKey 120 0));
      ObsCrash ErrNullDeref].
 Proof. vm_compute. reflexivity. Qed.
+
+(** The synthetic schemas meet the translator hypothesis of [wf_reported]:
+    the oracle translator yields at most 40 candidates. *)
+Lemma n_range_length k from : length (n_range k from) = k.
+Proof. revert from. induction k; intros; cbn; [reflexivity | now rewrite IHk]. Qed.
+
+Lemma flat_map_length_le {A B} (f : A -> list B) (l : list A) (b : nat) :
+  (forall x, In x l -> length (f x) <= b) -> length (flat_map f l) <= length l * b.
+Proof.
+  induction l as [|x r IH]; intros H; cbn [flat_map length]; [lia|].
+  rewrite app_length. pose proof (H x (or_introl eq_refl)). specialize (IH (fun y Hy => H y (or_intror Hy))). lia.
+Qed.
+
+Lemma oracle_translate_length input seg : length (oracle_translate input seg) <= 40.
+Proof.
+  unfold oracle_translate. destruct input as [|c0 r]; [cbn; lia|].
+  destruct (Byte.eqb c0 x78); [cbn; lia|].
+  match goal with |- length (flat_map ?f ?l) <= _ => 
+    assert (Hl : length l <= 4);
+    [| assert (Hf : forall x, In x l -> length (f x) <= 10);
+       [| pose proof (flat_map_length_le f l 10 Hf); lia ] ]
+  end.
+  - destruct (Byte.eqb c0 x75 || Byte.eqb c0 x76); [cbn; lia|].
+    rewrite !app_length. cbn [length].
+    repeat match goal with |- context [if ?b then _ else _] => destruct b end; cbn [length]; lia.
+  - intros L _. rewrite map_length, n_range_length.
+    destruct (Byte.eqb c0 x75); [cbn; lia|]. destruct (Byte.eqb c0 x76); [cbn; lia|].
+    destruct (Nat.eqb L (length (c0 :: r)));
+      match goal with |- N.to_nat (_ + ?x mod ?k) <= _ => pose proof (N.mod_upper_bound x k ltac:(discriminate)) end; lia.
+Qed.
